@@ -1,17 +1,17 @@
 import Spydr.IR.SepOps0
 namespace Spydr.IR
 
-theorem sep_setLibraries (s : S) (off n ls) : Sep s off → (Op.setLibraries n ls).above off →
-    Sep (step s (.setLibraries n ls)).1 off ∧ LowEq (step s (.setLibraries n ls)).1 s off := by sep_op
-theorem sep_removePort (s : S) (off d p) : Sep s off → (Op.removePort d p).above off →
-    Sep (step s (.removePort d p)).1 off ∧ LowEq (step s (.removePort d p)).1 s off := by sep_op
-theorem sep_setCables (s : S) (off d cs) : Sep s off → (Op.setCables d cs).above off →
-    Sep (step s (.setCables d cs)).1 off ∧ LowEq (step s (.setCables d cs)).1 s off := by sep_op
-theorem sep_removePin (s : S) (off p q) : Sep s off → (Op.removePin p q).above off →
-    Sep (step s (.removePin p q)).1 off ∧ LowEq (step s (.removePin p q)).1 s off := by sep_op
-theorem sep_setWires (s : S) (off c ws) : Sep s off → (Op.setWires c ws).above off →
-    Sep (step s (.setWires c ws)).1 off ∧ LowEq (step s (.setWires c ws)).1 s off := by sep_op
-theorem sep_setTop (s : S) (off n i) : Sep s off → (Op.setTop n i).above off →
-    Sep (step s (.setTop n i)).1 off ∧ LowEq (step s (.setTop n i)).1 s off := by sep_op
+theorem sep_setLibraries (s : S) (R : OId → Prop) (n ls) : Sep s R → (Op.setLibraries n ls).inside R →
+    Sep (step s (.setLibraries n ls)).1 R ∧ OutEq (step s (.setLibraries n ls)).1 s R := by sep_op
+theorem sep_removePort (s : S) (R : OId → Prop) (d p) : Sep s R → (Op.removePort d p).inside R →
+    Sep (step s (.removePort d p)).1 R ∧ OutEq (step s (.removePort d p)).1 s R := by sep_op
+theorem sep_setCables (s : S) (R : OId → Prop) (d cs) : Sep s R → (Op.setCables d cs).inside R →
+    Sep (step s (.setCables d cs)).1 R ∧ OutEq (step s (.setCables d cs)).1 s R := by sep_op
+theorem sep_removePin (s : S) (R : OId → Prop) (p q) : Sep s R → (Op.removePin p q).inside R →
+    Sep (step s (.removePin p q)).1 R ∧ OutEq (step s (.removePin p q)).1 s R := by sep_op
+theorem sep_setWires (s : S) (R : OId → Prop) (c ws) : Sep s R → (Op.setWires c ws).inside R →
+    Sep (step s (.setWires c ws)).1 R ∧ OutEq (step s (.setWires c ws)).1 s R := by sep_op
+theorem sep_setTop (s : S) (R : OId → Prop) (n i) : Sep s R → (Op.setTop n i).inside R →
+    Sep (step s (.setTop n i)).1 R ∧ OutEq (step s (.setTop n i)).1 s R := by sep_op
 
 end Spydr.IR
